@@ -294,7 +294,7 @@ def generate_job(job):
     target, contract_dirs, root = job
     r = verify_target(target, contract_dirs, None, root, solve=False)
     obs = []
-    uc = getattr(r.engine, 'unit_contract', None) if r.engine is not None else None
+    uc = getattr(getattr(r, 'engine', None), 'unit_contract', None)
     replays = {k.args[0].value: k.args[1].value for k in uc.calls('replay')} if uc is not None else {}
     default_recipe = sorted(set(replays.values()))[0] if len(set(replays.values())) == 1 else None
     for i, ob in enumerate(r.obligations):
